@@ -1027,7 +1027,17 @@ impl<'a, 'ast> Typecheck<'a, 'ast> {
                             .all(|name| expected_fields.remove(&name))
                             && expected_fields.is_empty();
 
-                        if expected_fields_matches {
+                        // Records are ordered so the fields must also appear in the same order
+                        let expected_order_matches = fields
+                            .iter()
+                            .map(|f| &f.name.value)
+                            .eq(expected_record_type.row_iter().map(|f| &f.name))
+                            && types
+                                .iter()
+                                .map(|f| &f.name.value)
+                                .eq(expected_record_type.type_field_iter().map(|f| &f.name));
+
+                        if expected_fields_matches && expected_order_matches {
                             // No need to do subsumption checking against the expected type as all the
                             // fields will be matched against anyway
                             expected_type.take();
